@@ -126,14 +126,15 @@ impl Walk {
         step("Sdes::chunks");
         let mut nchunks = 0usize;
         let mut nitems = 0usize;
-        for c in p.chunks() {
+        let cap = bound(self.len) + 1;
+        for c in p.chunks().take(cap) {
             nchunks += 1;
             step("SdesChunk::ssrc");
             let _ = c.ssrc();
             step("SdesChunk::length");
             let _ = c.length();
             step("SdesChunk::items");
-            for it in c.items() {
+            for it in c.items().take(cap) {
                 nitems += 1;
                 step("SdesItem::type_");
                 let ty = it.type_();
@@ -358,7 +359,8 @@ impl Walk {
 }
 
 /// Every public parsing entry point on `b`, and on every value returned every public accessor,
-/// conversion and iterator. Returns whether some parser accepted.
+/// conversion and iterator. Returns whether some packet-level parser accepted (compound, generic, typed, unknown,
+/// report block): the raw FCI parsers do not count, `Nack::parse` accepts every string.
 pub fn exercise_everything(b: &[u8]) -> Result<bool, Failure> {
     let len = b.len();
     let (accepted, over) = scope(|| {
@@ -467,27 +469,22 @@ pub fn exercise_everything(b: &[u8]) -> Result<bool, Failure> {
         }
         step("Nack::parse");
         if let Ok(f) = <Nack as FciParser>::parse(b) {
-            accepted = true;
             w.nack(&f);
         }
         step("Pli::parse");
         if let Ok(f) = <Pli as FciParser>::parse(b) {
-            accepted = true;
             let _ = format!("{f:?}").len();
         }
         step("Sli::parse");
         if let Ok(f) = <Sli as FciParser>::parse(b) {
-            accepted = true;
             w.sli(&f);
         }
         step("Rpsi::parse");
         if let Ok(f) = <Rpsi as FciParser>::parse(b) {
-            accepted = true;
             w.rpsi(&f);
         }
         step("Fir::parse");
         if let Ok(f) = <Fir as FciParser>::parse(b) {
-            accepted = true;
             w.fir(&f);
         }
         (accepted, w.over)
@@ -512,7 +509,7 @@ pub(crate) fn c01_oracle(c: &Bytes, st: &mut Stats) -> Verdict {
     let accepted = exercise_everything(b).map_err(|f| Failure::new(format!("C01:{}", f.signature), format!("{}; input {}", f.detail, one_line(&hex(b), 600))))?;
     if accepted {
         st.nontrivial();
-        st.label("accepted by some parser (accessors ran)");
+        st.label("accepted by a packet-level parser (accessors ran)");
     }
     Ok(())
 }
@@ -567,7 +564,7 @@ pub fn c01(tier: Tier) -> Check {
         rule: "cases = byte strings (random, framed, mutated reference images, concatenations, feedback packets with arbitrary FCI, SDES-shaped bodies, raw FCI bodies of any length, rare inputs of 64 KiB..270 KB) \
                + every string of length <= 2 + the header-space sweep; calls: Compound::parse + full iteration + 3 extra next(), Packet::parse, the 7 typed parsers, Unknown::parse, ReportBlock::parse, the 5 FCI parsers, \
                and on every Ok all public accessors, iterators, conversions (try_as, TryFrom by value and by reference, From<T> for Packet) and Debug/Clone/PartialEq; priv_prefix(_len) only on PRIV items (documented exemption); \
-               oracle: no unwind, every iterator ends within 5*len+8 steps; non-trivial = at least one parser accepted (so accessors ran)",
+               oracle: no unwind, every iterator ends within 5*len+8 steps; non-trivial = a packet-level parser (compound, generic, typed, unknown, report block) accepted, so its accessors ran - the raw FCI parsers do not count, Nack::parse accepts every string",
         assumptions: vec![
             "termination inside one call is decided by a watchdog (6 s per case, normal cost microseconds) confirmed in a fresh subprocess; iterator termination by step counting",
             "built with debug assertions and overflow checks on, as in a user's dev build",
@@ -592,7 +589,8 @@ fn sub_slice(what: &str, s: &[u8], b: &[u8], off: usize, len: usize) -> Verdict 
     let base = b.as_ptr() as usize;
     let p = s.as_ptr() as usize;
     ensure!(
-        s.len() == len && (len == 0 && p >= base && p <= base + b.len() || p == base + off),
+        // an empty slice holds no bytes from anywhere: its address is not judged
+        s.len() == len && (len == 0 || p == base + off),
         format!("C09:{what}:not-the-expected-sub-slice"),
         "{what} returned a slice of {} bytes at input offset {} (want {len} bytes at offset {off}); input {}",
         s.len(),
@@ -621,6 +619,13 @@ fn c09_blocks(name: &str, b: &[u8], base: usize, count: usize, blocks: &[ReportB
     Ok(())
 }
 
+/// the reference reads below index the input at the RFC offsets; an input that a parser accepted although it is
+/// too short for its fixed layout is reported as that (C08's business as well), not as a harness index panic
+fn long_enough(name: &str, b: &[u8], need: usize) -> Verdict {
+    ensure!(b.len() >= need, format!("C09:{name}:accepted-shorter-than-its-fixed-layout"), "{name}::parse accepted {} bytes, the fields read by its accessors end at byte {need}; input {}", b.len(), hex(b));
+    Ok(())
+}
+
 pub(crate) fn c09_oracle(c: &Bytes, st: &mut Stats) -> Verdict {
     let b = &c.0[..];
     if b.len() < 4 {
@@ -634,6 +639,7 @@ pub(crate) fn c09_oracle(c: &Bytes, st: &mut Stats) -> Verdict {
         if let Ok(p) = SenderReport::parse(b) {
             st.nontrivial();
             st.label("SR");
+            long_enough("SenderReport", b, 28 + 24 * h.count as usize)?;
             step("SenderReport accessors");
             let got = (p.ssrc(), p.ntp_timestamp(), p.rtp_timestamp(), p.packet_count(), p.octet_count(), p.n_reports());
             let want = (be32(b, 4), be64(b, 8), be32(b, 16), be32(b, 20), be32(b, 24), h.count);
@@ -646,6 +652,7 @@ pub(crate) fn c09_oracle(c: &Bytes, st: &mut Stats) -> Verdict {
         if let Ok(p) = ReceiverReport::parse(b) {
             st.nontrivial();
             st.label("RR");
+            long_enough("ReceiverReport", b, 8 + 24 * h.count as usize)?;
             let got = (p.ssrc(), p.n_reports());
             ensure!(got == (be32(b, 4), h.count), "C09:ReceiverReport:field", "accessors {got:?}; input {}", hex(b));
             step("ReceiverReport::report_blocks");
@@ -656,22 +663,25 @@ pub(crate) fn c09_oracle(c: &Bytes, st: &mut Stats) -> Verdict {
         if let Ok(rb) = ReportBlock::parse(b) {
             st.nontrivial();
             st.label("ReportBlock");
+            long_enough("ReportBlock", b, 24)?;
             c09_blocks("ReportBlock", b, 0, 1, &[rb])?;
         }
         step("App::parse");
         if let Ok(p) = App::parse(b) {
             st.nontrivial();
             st.label("APP");
+            long_enough("App", b, 12)?;
             step("App accessors");
             let got = (p.ssrc(), p.name(), p.subtype());
             let want = (be32(b, 4), [b[8], b[9], b[10], b[11]], h.count);
             ensure!(got == want, "C09:App:field", "accessors {got:?}, wire {want:?}; input {}", hex(b));
             step("App::data");
             let d = p.data();
-            if pad % 4 == 0 {
+            if pad % 4 == 0 && pad + 12 <= b.len() {
                 sub_slice("App::data", d, b, 12, b.len() - pad - 12)?;
             } else {
-                st.label("either-zone: padding count not a multiple of 4");
+                // either-zones: a padding count that is not a multiple of 4, or larger than the bytes after the fixed part
+                st.label("either-zone: APP padding count not a multiple of 4 or larger than the body");
                 sub_slice("App::data", d, b, 12, d.len())?;
             }
         }
@@ -679,6 +689,7 @@ pub(crate) fn c09_oracle(c: &Bytes, st: &mut Stats) -> Verdict {
         if let Ok(p) = Bye::parse(b) {
             st.label("BYE");
             let c = h.count as usize;
+            long_enough("Bye", b, 4 + 4 * c)?;
             step("Bye::ssrcs");
             let got: Vec<u32> = p.ssrcs().collect();
             let want: Vec<u32> = (0..c).map(|i| be32(b, 4 + 4 * i)).collect();
@@ -713,6 +724,7 @@ pub(crate) fn c09_oracle(c: &Bytes, st: &mut Stats) -> Verdict {
         if let Ok(p) = TransportFeedback::parse(b) {
             st.nontrivial();
             st.label("TFB");
+            long_enough("TransportFeedback", b, 12)?;
             let got = (p.sender_ssrc(), p.media_ssrc(), p.count());
             ensure!(got == (be32(b, 4), be32(b, 8), h.count), "C09:TransportFeedback:field", "accessors {got:?}; input {}", hex(b));
         }
@@ -720,6 +732,7 @@ pub(crate) fn c09_oracle(c: &Bytes, st: &mut Stats) -> Verdict {
         if let Ok(p) = PayloadFeedback::parse(b) {
             st.nontrivial();
             st.label("PFB");
+            long_enough("PayloadFeedback", b, 12)?;
             let got = (p.sender_ssrc(), p.media_ssrc(), p.count());
             ensure!(got == (be32(b, 4), be32(b, 8), h.count), "C09:PayloadFeedback:field", "accessors {got:?}; input {}", hex(b));
         }
@@ -867,6 +880,9 @@ pub(crate) fn c11_oracle(c: &CompoundCase, st: &mut Stats) -> Verdict {
         match (got, want) {
             (None, _) => fail!("C11:ends-early", "call {call}: next() = None but tile {call} of {} was not yielded; input {}", tiles.len(), hex(b)),
             (Some(Ok(g)), Ok(w)) => {
+                // the yielded packet is a view of exactly this tile (its Debug text may not print every byte)
+                let (hd, ln) = no_panic("Packet::header_data / length", || (g.header_data(), g.length()))?;
+                ensure!(hd[..] == b[a..a + 4] && ln == e - a, "C11:item-is-not-the-tile", "tile {call} is bytes {a}..{e} with header {}, the yielded packet has header {} and length {ln}", hex(&b[a..a + 4]), hex(&hd));
                 let (dg, dw) = (format!("{g:?}"), format!("{w:?}"));
                 ensure!(dg == dw, "C11:item-differs-from-generic-parse", "tile {call}: yielded {dg}, Packet::parse gives {dw}");
             }
